@@ -1044,7 +1044,11 @@ func (t *objectType) createAttributesInfo() *attributesInfo {
 	nonOptSize := 0
 	if t.serialization == nil {
 		optAttrs := make([]px.Attribute, 0)
-		t.EachAttribute(true, func(attr px.Attribute) {
+		// An overriding attribute takes the place of the one it overrides
+		atMap := hash.NewStringHash(15)
+		t.collectAttributes(true, atMap)
+		atMap.EachValue(func(av interface{}) {
+			attr := av.(px.Attribute)
 			switch attr.Kind() {
 			case constant, derived:
 			case givenOrDerived:
